@@ -1,7 +1,7 @@
 (* Proofs about Model/Header.v against Spec/HeaderRules.v *)
 From Coq Require Import List NArith Bool Lia PeanoNat.
 From Coq Require String.
-From I18n Require Import Lib.Outcome Model.Header Spec.HeaderRules Proofs.HeaderBase.
+From I18n Require Import Lib.Outcome Model.Header Spec.HeaderRules Proofs.HeaderBase Proofs.HeaderComments.
 Import ListNotations.
 Import String.StringSyntax.
 Local Open Scope N_scope.
@@ -1204,13 +1204,13 @@ Record clean_header (inp : hinput) (e : entry) (fs : list (str * str)) : Prop :=
   c_translator : exists v, In (field_name FTranslator, v) fs /\ fine_address is_boiler1 (o_parseaddr O v) /\
      exists w, In (field_name FTeam, w) fs /\
        (~ In 64 (o_parseaddr O w) \/ (fine_address is_boiler2 (o_parseaddr O w) /\ o_parseaddr O w <> o_parseaddr O v));
-  c_comments : forall line, In line (splitlines (h_comment inp)) -> comment_line_boilerplate O (h_template inp) line = false
+  c_comments : forall w, In w boilerplate_words -> ~ contains w (h_comment inp)   (* no xgettext / msginit placeholder word *)
 }.
 
-Lemma clean_header_silent : o_word O 32 = false -> o_word O 99 = true ->
+Lemma clean_header_silent : o_word O 32 = false -> o_word O 99 = true -> o_space O 32 = true ->
   forall inp e fs, clean_header inp e fs -> hdr_check O known dedicated nb ob inp = Ok [].
 Proof.
-  intros H32 H99 inp e fs C. destruct C.
+  intros H32 H99 HS32 inp e fs C. destruct C.
   unfold hdr_check.
   assert (Hfst := check_headers_fst O known dedicated (h_template inp) (h_entries inp)).
   assert (Hsnd := headers_snd O known dedicated (h_template inp) (h_entries inp)).
@@ -1218,7 +1218,7 @@ Proof.
   rewrite <- c_fields0 in Hfst. subst fs'. rewrite <- c_fields0 in Hsnd.
   (* comments *)
   assert (Hcom : check_comments O (h_template inp) (h_comment inp) = []).
-  { unfold check_comments. apply flat_map_nil. intros l Hl. rewrite (c_comments0 l Hl). reflexivity. }
+  { unfold check_comments. apply flat_map_nil. intros l Hl. rewrite (clean_comment_lines O (h_template inp) (h_comment inp) HS32 c_comments0 l Hl). reflexivity. }
   (* headers *)
   assert (Hhd : hd = []).
   { rewrite Hsnd, c_single0. destruct c_plain_entry0 as (Ho & Hp & Hf).
